@@ -86,7 +86,8 @@ def rule_select_range(ctx):
         for c in sel1:
             n_sites += 1
             arg = _sc(f.term(c, inline=True)[2][0])
-            ok = arg == ('call', 'sdsl::int_vector::size', (), ('field', 'low', EFF))
+            JJ = ('call', 'sdsl::int_vector::size', (), ('field', 'low', EFF))
+            ok = arg == JJ or _lin_terms(arg) == {JJ: 1}       # also `last_rank + 1` with last_rank = ef.low.size() - 1
             obs.append(Ob('SELECT-RANGE', f, c, 'the rank passed to ef.high_1_select is the number of stored elements (ef.low.size())', fmt_term(arg)[:60],
                           OK if ok else UNDECIDED, arm='select1'))
     ctx.stats['select_sites'] = n_sites
@@ -151,6 +152,9 @@ def rule_beyond_value(ctx):
                     H = _sc(hi_[2])
                     sel = ('call', 'sdsl::select_support_mcl::operator()', (J,), ('field', 'high_1_select', EFF))
                     lt = _lin_terms(H)
+                    # the argument of the select up to arithmetic: high_1_select((J - 1) + 1)
+                    lt = {(sel if (k is not None and k[0] == 'call' and k[1] == sel[1] and len(k) > 3 and k[3] == sel[3] and len(k[2]) == 1 and _lin_terms(k[2][0]) == {J: 1}) else k): v
+                          for k, v in lt.items()}
                     if lt == {sel: 1, J: -1, None: 1}:
                         st, why = (OK, 'Elias-Fano access formula for element J-1') if low_ok and idx_ok else (VIOLATED, 'index or low part is not J-1')
                     elif H[0] == 'op' and H[1] == '>>' and _sc(H[3]) == WL and _lin(H[2]) and _lin(H[2])[0] == 'SIZE':
